@@ -73,7 +73,12 @@ MANIFEST = dict(
          "decides: its stat/extraction verdict is zipDepack's verdict whatever members follow), C09_member_selection_final (ARC, "
          "ArcFS, LZX: once the entry loop reaches an entry it extracts, the loop's result is that entry's verdict); archives with "
          "2-3 loadable modules plus non-module members (zip, zip with data descriptors, ARC, ArcFS, LZX) are in the gate "
-         "correspondence and in the oracle with the rule `fails or loads the payload of the intact archive`.",
+         "correspondence and in the oracle with the rule `fails or loads the payload of the intact archive`. Nesting: "
+         "C09_gate_arc_every_depth / C09_reject_arc_every_depth (arc_read's CRC-16 comparison holds at every directory depth "
+         "`level`; directory records' own CRC is never consulted); the module as a member at depth 0/1/2 of ARC 6 (type 30/31) and "
+         "Spark directories (tools/c08_writers.arc_tree, stored and packed), ArcFS directory entries, zip / LZX paths is in the "
+         "gate correspondence and the oracle sweep (all bits of the nested member's header and of the head/tail of its data + "
+         "random faults); LHA -lhd-/path archives are swept too but counted `unverifiable` (no implemented data check).",
     note="Partial by nature: the entropy decoders (inflate, bzip2 BWT/Huffman, LZMA2, ARC LZW/Huffman, LZX) are parameters, not "
          "verified. RESIDUAL CLASS OUTSIDE THE THEOREMS: damage that a decoder spreads over more than one <=32/16-bit burst and whose "
          "check collides (2^-32 / 2^-16 per case) cannot be excluded by any proof; the oracle classifies an accepted different "
@@ -123,7 +128,9 @@ REQUIRED = [NS + n for n in (
     "C09_xz_index_matches_blocks",
     # third wave: no loophole at boundary check values; member selection
     "C09_gates_exact", "C09_bzip2_single_block_exact", "C09_arc_zero_crc_is_checked", "C09_zip_member_selection",
-    "C09_zip_selected_member_failure", "C09_member_selection_final")]
+    "C09_zip_selected_member_failure", "C09_member_selection_final",
+    # members at every nesting depth
+    "C09_gate_arc_every_depth", "C09_reject_arc_every_depth")]
 
 WRAPS = ["-Wl,--wrap=libxmp_tinfl_decompress_mem_to_heap", "-Wl,--wrap=libxmp_arc_unpack", "-Wl,--wrap=lzx_unpack",
          "-Wl,--wrap=libxmp_exclude_match", "-Wl,--wrap=xz_dec_lzma2_run", "-Wl,--wrap=xz_dec_lzma2_reset",
@@ -131,7 +138,7 @@ WRAPS = ["-Wl,--wrap=libxmp_tinfl_decompress_mem_to_heap", "-Wl,--wrap=libxmp_ar
 GATE_FMTS = ("gzip", "arc", "arcfs", "lzx", "xz", "zip")
 HARNESS_FMT = {"zip": "zipf"}       # name of the case in harness/c09_gates.c and Drv/C09.lean
 ALLBITS = ("crc32", "isize", "crc16", "csize", "usize", "entry", "hdr", "streamhdr", "blockhdr", "blockpad", "check", "index",
-           "footer", "blockdata", "eocd", "cdh", "lh", "datadesc")
+           "footer", "blockdata", "eocd", "cdh", "lh", "datadesc", "dirhdr", "direntry")
 
 
 # --------------------------------------------------------------------------
@@ -321,7 +328,7 @@ def gate_cases(ck, arch, quick):
     faults = [("none",)]
     for name, (off, ln) in sorted(arch["fields"].items()):
         for o in range(off, min(off + ln, n)):
-            bits = range(8) if (name in ALLBITS or re.sub(r"\d+(_head|_tail)?$", "", name) in ALLBITS) else [rng.randrange(8)]
+            bits = range(8) if (name in ALLBITS or re.sub(r"(N|\d+)(_head|_tail)?$", "", name) in ALLBITS) else [rng.randrange(8)]
             for b in bits:
                 faults.append(("flip", o, b))
     k = 40 if quick else 300
@@ -334,7 +341,7 @@ def gate_cases(ck, arch, quick):
     for t in range(1, 10):
         faults.append(("trunc", n - t))
     cap = 140 if quick else 500
-    if arch["fmt"] in ("xz", "zip") or arch.get("members"):
+    if arch["fmt"] in ("xz", "zip") or arch.get("members") or arch.get("nested") is not None:
         cap = 420 if quick else 2500
     if len(faults) > cap:
         head, tail = faults[:1], faults[1:]
@@ -721,6 +728,9 @@ def build_archives(ck, orc, quick):
     # several loadable members (+ non-module members): a failure in the selected member must fail the load
     tiny3 = [A.synth_mod(rng, tiny=True) for _ in range(3)]
     archives.extend(A.multi_member_archives(rng, tiny3))
+    # the module as a member at nesting depth 0..2 of every container that has directories (ARC 6 type 30/31, Spark
+    # directories, ArcFS directory entries, zip / LZX / LHA paths): member data must be checked at every depth
+    archives.extend(A.nested_archives(rng, tiny3[1], quick))
     # one multi-block bzip2 stream (>= 3 blocks at level 1) for the stream-CRC combination rule
     big = A.synth_mod_big(rng)
     a = A.make_bz2_multi(rng, big)
@@ -779,6 +789,10 @@ def oracle(ck, orc, archives, quick):
                 st["rejected"] += 1
             elif md5 == want:
                 st["identical"] += 1
+            elif a.get("unverifiable"):
+                # the format's data check is not implemented by the library (LHA: lhasa never compares the CRC-16 it
+                # accumulates): a changed payload cannot be refused -- counted, swept for aborts only
+                st["unverifiable"] = st.get("unverifiable", 0) + 1
             elif md5 in a.get("members", ()) and a["fmt"] in GATE_FMTS:
                 # another member's intact payload was loaded: legitimate only if the damaged *selection metadata* (method,
                 # flags, name, entry header CRC ...) makes the depacker skip the first member -- decided below by the
